@@ -61,6 +61,10 @@ CHECKS = {
    technique=TECH + "heterogeneous builds as replicas: programs whose parameters fit u8 executed by the default, period_type_u16, period_type_u32, period_type_u64 builds (thorough: + unsafe_performance combination), transcripts diffed; the definitional engines of C01/C02/C04/C14 re-run inside the u16 build with windows up to 600/3000 and streams longer than 2^16 for the position counters, and C01-C04/C14 inside the value_type_f32 build with u = 2^-23 and the reference in f64",
    text="Transcript equality of results (integers by value; serialized internal state is not part of the transcript because position counters of different width may legitimately be re-based differently) plus in-build definitional checks. Samples programs and streams.",
    note="In the f32 build the feed keeps magnitudes where squares and window sums stay far from f32::MAX (overflow is not a rounding effect). u32/u64 builds run transcripts only (their extra capacity cannot be allocated)."),
+ "C15": dict(level="exploration", design="§4 C15",
+   technique=TECH + "replica groups: instances of the same kind and length fed related streams (affine image, constant, sum of two streams, impulse) on fault-feed inputs; algebraic relations between the replicas' outputs checked per step with the tracked allowance; impulse responses compared with closed-form documented weight profiles (reduced fit: metamorphic relations between runs, no schedule)",
+   text="All 15 MA kinds of the MA constructor plus Conv and VWMA; five laws; a and b from a fixed set incl. negative a; flat-after-volatile regimes enabled; the impulse response is stratified over every length 1..=254 (thorough, complete in the length dimension).",
+   note="Allowance 2048*u*(n+t)*M (twice the largest frozen drift constant), VWMA with the quotient-of-running-sums scaling. Constant reproduction read as fixed point up to rounding of the documented normalisation; bit-exact reproduction is counted in the evidence."),
 }
 NA = {
  "C16": "Action algebra is a total, stateless algebra over a finite domain: no history, state, fault, replica or schedule for a simulator to drive; the fitting technique (exhaustive enumeration) is model checking, which this task excludes (DESIGN.md §5).",
